@@ -450,6 +450,7 @@ func (c *Ctx) Run(steps []string) []string {
 	var out []string
 	for _, s := range steps {
 		r := c.Step(s)
+		c.w.flushCrashNote()
 		c.w.note(Obs{Kind: "step", A: map[string]string{"s": s, "r": r, "state": c.state()}})
 		out = append(out, r)
 	}
